@@ -44,9 +44,12 @@ def cases(draw, maxfr=16, maxdim=20):
     om0 = draw(st.integers(-3200, 3200)) / 16.0
     step = draw(st.sampled_from([1, 4, 16, -4, 3])) / 16.0
     empty = draw(st.booleans())
-    imtype = draw(st.sampled_from(["f32", "f32", "u16", "i32", "f64", "fortran", "strided", "small", "small"]))
+    imtype = draw(st.sampled_from(["f32", "f32", "u16", "i32", "f64", "fortran", "strided", "small", "small", "tiny"]))
     return dict(kind=kind, nfr=nfr, ns=ns, nf=nf, fill=fill, seed=seed, thpos=thpos, om0=om0, step=step, empty=empty,
                 imtype=imtype)
+
+
+SCALES = {"small": 2.0 ** -10, "tiny": 2.0 ** -30}
 
 
 def as_image(frame, imtype):
@@ -117,11 +120,13 @@ def build(case):
     vals = rng.randint(1, 50, (nfr, ns, nf))
     vol = np.where(occ, vals, 0).astype(np.float32)
     th = {"low": 0.5, "mid": 10.5, "at": 10.0}[case["thpos"]]
-    if case.get("imtype") == "small":
+    if case.get("imtype") in SCALES:
         # normalised data (divided by a monitor / flat field): the same pattern 1024 times weaker, whole peaks sum
         # to less than 0.1; the scale is a power of two, so nothing is rounded
-        vol = vol * np.float32(2.0 ** -10)
-        th = th * 2.0 ** -10
+        # ("tiny": 2^-30, e.g. data in units of the incident flux - the intensities print as 0.0000, the positions
+        # and the pixel counts are still written in full)
+        vol = vol * np.float32(SCALES[case["imtype"]])
+        th = th * SCALES[case["imtype"]]
     omegas = case["om0"] + case["step"] * np.arange(nfr)
     return vol, th, omegas
 
@@ -213,7 +218,7 @@ def compare(name, text, vol, th, omegas, exp):
         return fails
     if not np.array_equal(arr[:, T["spot3d_id"]], np.arange(len(arr))):
         fails.append(fail("ids", "%s: spot3d_id is not 0..n-1 in output order" % name, driver=name))
-    key = lambda r: (r[0], r[1], r[2], r[3], r[4], r[5], r[6], round(r[7], 2), round(r[8], 2))
+    key = lambda r: (r[0], round(r[1], 4), r[2], r[3], r[4], r[5], r[6], round(r[7], 2), round(r[8], 2))
     got = sorted([key((a[T["Number_of_pixels"]], a[T["sum_intensity"]], a[T["Min_s"]], a[T["Max_s"]], a[T["Min_f"]],
                        a[T["Max_f"]], round(a[T["Min_o"]], 4), a[T["s_raw"]], a[T["f_raw"]])) + (i,)
                   for i, a in enumerate(arr)])
@@ -272,7 +277,7 @@ def check(case, rec=None):
         return [exc_failure("labelimage.finalise", e)]
     fails += compare("labelimage", out.getvalue(), vol, th, omegas, exp)
     # ---- driver 2: peaksearcher.peaksearch with three thresholds at once
-    vs = 2.0 ** -10 if case.get("imtype") == "small" else 1.0
+    vs = SCALES.get(case.get("imtype"), 1.0)
     ths = sorted(set([th, 0.5 * vs, 20.5 * vs]))
     outs = {t: io.StringIO() for t in ths}
     labims = {t: labelimage.labelimage(vol[0].shape, fileout=outs[t], sptfile=io.StringIO()) for t in ths}
